@@ -378,7 +378,14 @@ pub struct CompressorOxide {
 
 const fn change_window_bits_from_format(window_bits: u8, data_format: DataFormat) -> i32 {
     match data_format {
-        DataFormat::Zlib | DataFormat::ZLibIgnoreChecksum => window_bits as i32,
+        // The zlib wrapper is requested through a positive value, so 0 must not be passed on as is.
+        DataFormat::Zlib | DataFormat::ZLibIgnoreChecksum => {
+            if window_bits == 0 {
+                1
+            } else {
+                window_bits as i32
+            }
+        }
         DataFormat::Raw => -(window_bits as i32),
     }
 }
